@@ -46,20 +46,37 @@ def fact_atoms(k, f):
     return a
 
 
+_INTERN = {}
+
+
 def ckey(p):
-    return tuple(sorted(p.items()))
+    """interned identity of a polynomial (small int: cheap to hash, compare and put in sets)"""
+    t = tuple(sorted(p.items()))
+    i = _INTERN.get(t)
+    if i is None:
+        i = len(_INTERN)
+        _INTERN[t] = i
+    return i
 
 
 def norm(p):
-    """scale an inequality p <= 0 so that equal facts have equal keys"""
-    lead = None
-    for m in sorted(p):
+    """scale an inequality p <= 0 to coprime integer coefficients (of the non-constant part), so that equal facts have equal keys"""
+    import math
+    den = 1
+    for m, c in p.items():
+        d = c.denominator
+        if d != 1:
+            den = den * d // math.gcd(den, d)
+    g = 0
+    for m, c in p.items():
         if m != ():
-            lead = abs(p[m])
-            break
-    if lead is None or lead == 1:
+            g = math.gcd(g, abs(int(c * den)))
+    if g == 0:
         return p
-    return {m: c / lead for m, c in p.items()}
+    if den == 1 and g == 1:
+        return p
+    f = Fraction(den, g)
+    return {m: c * f for m, c in p.items()}
 
 
 def tighten(p):
@@ -173,65 +190,84 @@ class Prover:
 def lp_refute(cs, neg_goal):
     """True iff {p <= 0 for p in cs} /\ neg_goal <= 0 has no rational solution (monomials = independent variables), decided
     exactly by Farkas' lemma: the system is infeasible iff some y >= 0 has  sum y_j a_j = 0  and  sum y_j b_j > 0.
-    Primal simplex (Bland's rule, rational arithmetic) on  max b.y  s.t.  A^T y = 0, sum y <= 1, y >= 0."""
-    rows = [c for c in cs if c] + [neg_goal]
+    Primal simplex (Bland's rule) on  max b.y  s.t.  A^T y = 0, sum y <= 1, y >= 0, in exact integer arithmetic (every row is
+    kept as integers up to a positive factor: row_i <- piv * row_i - row_i[e] * row_l, divided by its gcd)."""
+    import math
+    rows = []
+    for c in [c for c in cs if c] + [neg_goal]:
+        den = 1
+        for v in c.values():
+            d = v.denominator
+            if d != 1:
+                den = den * d // math.gcd(den, d)
+        if den == 1:
+            rows.append({m: v.numerator for m, v in c.items()})
+        else:
+            rows.append({m: int(v * den) for m, v in c.items()})
     monos = sorted({m for r in rows for m in r if m != ()})
     if not monos:
         return any(r.get((), 0) > 0 for r in rows)
     idx = {m: i for i, m in enumerate(monos)}
     n, m_ = len(monos), len(rows)
-    # columns: y_0..y_{m-1}, slack ; rows: n equality rows (basic: artificial, never re-enters), 1 bound row (basic: slack)
-    ncol = m_ + 1
-    T = [[Fraction(0)] * (ncol + 1) for _ in range(n + 1)]
+    ncol = m_ + 1                       # y_0..y_{m-1}, slack ; last entry of a row = right-hand side
+    T = [[0] * (ncol + 1) for _ in range(n + 1)]
     for j, r in enumerate(rows):
         for mo, c in r.items():
             if mo != ():
-                T[idx[mo]][j] = Fraction(c)
-        T[n][j] = Fraction(1)
-    T[n][m_] = Fraction(1)
-    T[n][ncol] = Fraction(1)
-    basis = [-1] * n + [m_]              # -1: artificial (fixed at zero)
-    obj = [Fraction(r.get((), 0)) for r in rows] + [Fraction(0)]       # maximise
-    # reduced costs z_j = obj_j - c_B B^-1 A_j ; c_B = 0 initially
-    red = list(obj)
-    val = Fraction(0)
-    for _ in range(4000):
+                T[idx[mo]][j] = c
+        T[n][j] = 1
+    T[n][m_] = 1
+    T[n][ncol] = 1
+    basis = [-1] * n + [m_]              # -1: artificial of an equality row (fixed at zero, never re-enters)
+    z = [r.get((), 0) for r in rows] + [0, 0]          # reduced costs | -value
+
+    def normalise(row):
+        g = 0
+        for x in row:
+            if x:
+                g = math.gcd(g, x if x > 0 else -x)
+                if g == 1:
+                    return row
+        return [x // g for x in row] if g > 1 else row
+    for _ in range(5000):
         enter = -1
         for j in range(ncol):
-            if red[j] > 0:
+            if z[j] > 0:
                 enter = j
                 break
         if enter < 0:
-            return val > 0
-        # ratio test; artificial rows with a non-zero entry pivot first (they must stay at zero)
+            return z[ncol] < 0
         leave = -1
         for i in range(n):
             if basis[i] == -1 and T[i][enter] != 0:
                 leave = i
+                if T[i][enter] < 0:
+                    T[i] = [-x for x in T[i]]          # right-hand side is 0
                 break
         if leave < 0:
-            best = None
             for i in range(n + 1):
                 if basis[i] != -1 and T[i][enter] > 0:
-                    ratio = T[i][ncol] / T[i][enter]
-                    if best is None or ratio < best or (ratio == best and basis[i] < basis[leave]):
-                        best, leave = ratio, i
+                    if leave < 0:
+                        leave = i
+                    else:
+                        l_, r_ = T[i][ncol] * T[leave][enter], T[leave][ncol] * T[i][enter]
+                        if l_ < r_ or (l_ == r_ and basis[i] < basis[leave]):
+                            leave = i
             if leave < 0:
-                return True          # unbounded cannot happen (sum y <= 1); defensive
-        piv = T[leave][enter]
-        rowl = [x / piv for x in T[leave]]
-        T[leave] = rowl
+                return True
+        rowl = T[leave]
+        piv = rowl[enter]
         for i in range(n + 1):
-            if i != leave and T[i][enter] != 0:
+            if i != leave:
                 f = T[i][enter]
-                ri = T[i]
-                T[i] = [x - f * y for x, y in zip(ri, rowl)]
-        f = red[enter]
-        if f != 0:
-            val += f * rowl[ncol]
-            red = [x - f * y for x, y in zip(red, rowl[:ncol])]
+                if f:
+                    ri = T[i]
+                    T[i] = normalise([piv * x - f * y for x, y in zip(ri, rowl)])
+        f = z[enter]
+        if f:
+            z = normalise([piv * x - f * y for x, y in zip(z, rowl)])
         basis[leave] = enter
-        if val > 0:
+        if z[ncol] < 0:
             return True
     return False
 
@@ -335,16 +371,18 @@ def fm_refute(cs, neg_goal):
 
 # ---- abstract state ---------------------------------------------------------------------------------------------------------------
 class RState:
-    __slots__ = ('vals', 'facts')
+    __slots__ = ('vals', 'facts', 'bodies')
 
     def __init__(self):
         self.vals = {}        # local -> value tuple
-        self.facts = {}       # ckey -> poly
+        self.facts = {}       # fact id -> poly
+        self.bodies = {}      # id of the non-constant part -> (constant, fact id): only the strongest constant is kept
 
     def copy(self):
         s = RState()
         s.vals = dict(self.vals)
         s.facts = dict(self.facts)
+        s.bodies = dict(self.bodies)
         return s
 
     def add(self, p):
@@ -354,17 +392,22 @@ class RState:
             return
         p = tighten(p)
         p = norm(p)
-        body = tuple(sorted((m, c) for m, c in p.items() if m != ()))
         k0 = p.get((), Fraction(0))
-        for k, f in list(self.facts.items()):
-            if len(f) - (1 if () in f else 0) == len(body) and tuple(sorted((m, c) for m, c in f.items() if m != ())) == body:
-                if f.get((), Fraction(0)) >= k0:
-                    return          # an equal or stronger fact is present
-                del self.facts[k]
-        self.facts[ckey(p)] = p
+        bk = ckey({m: c for m, c in p.items() if m != ()})
+        old = self.bodies.get(bk)
+        if old is not None:
+            if old[0] >= k0 and old[1] in self.facts:
+                return          # an equal or stronger fact is present
+            self.facts.pop(old[1], None)
+        k = ckey(p)
+        self.facts[k] = p
+        self.bodies[bk] = (k0, k)
+
+    def remove(self, k):
+        self.facts.pop(k, None)
 
     def same(self, o):
-        return self.vals == o.vals and set(self.facts) == set(o.facts)
+        return self.vals == o.vals and self.facts.keys() == o.facts.keys()
 
 
 class Site:
@@ -1563,7 +1606,7 @@ def entry_facts_from_callsites(prog, key, results):
     return out
 
 
-def analyse_program(prog, order, rounds=3):
+def analyse_program(prog, order, rounds=3, assume=None):
     """order: body keys, callers before callees"""
     results = {}
     prover = Prover()
@@ -1572,6 +1615,8 @@ def analyse_program(prog, order, rounds=3):
         if body is None:
             continue
         ef = entry_facts_from_callsites(prog, key, results)
+        if assume and key in assume:
+            ef = (ef or []) + list(assume[key])
         results[key] = analyse(prog, body, entry=(lambda an, ef=ef: ef or []), rounds=rounds, prover=prover)
         results[key].entry_facts = ef or []
     return results
